@@ -316,12 +316,12 @@ def reservations(ck, prog, config, maxc):
 CLAIM = {
     'technique': 'interval abstract interpretation with bounded unrolling of the decoder (type-range check on every '
                  'arithmetic node of the type-checked AST), cursor bookkeeping from two start values, encoder bound and '
-                 'reservation checks, call-site argument agreement',
+                 'reservation checks, call-site argument agreement, stop-bit origin tracking (every accepting path saw the stop bit in the last byte read)',
     'text': 'static analysis: decides C20-a..e - no input byte is read without a preceding cursor < limit test; on '
             'accepting paths no wrap, overflow or narrowing, at most 10 consecutive bytes, exact cursor bookkeeping and '
             'the exact value range per length; rejecting paths restore the cursor; compint_to_int narrows only values '
             '<= INT_MAX; the encoder emits <= MAX_COMP_SIZE bytes into sufficiently reserved buffers; all 13+ call '
-            'sites pass base+cursor with the same cursor by address. Round-trip equality for all values is not decided.',
+            'sites pass base+cursor with the same cursor by address. Round-trip equality for all values is not decided. Every accepting path has seen the stop bit in the last byte it read.',
     'note': 'trusted: clang 14 front end and its types; intervals over mathematical integers; LP64 (size_t 64 bit, int 32)',
 }
 
